@@ -870,7 +870,11 @@ def gen_c02zone(r, knobs=None):
     """known-finding zones of C02. F4: parameter objects that store a python set (AutoParameterObject repr follows set iteration
     order). F14: Path-typed parameter whose declared default is a Path object and is persisted (no dont_persist_default_value):
     leaving it out and spelling it in the config give different locations."""
-    if r.random() < 0.4:
+    t = r.random()
+    if t < 0.25:
+        # F20: a parameter object that takes a mapping (here: **options) renders it in the order the config lists its keys
+        return gen_c02(r, {'families': ['obj', 'obj', 'int'], 'n_pipes': (1, 2), 'max_params': 2, 'zone_optdict': True})
+    if t < 0.55:
         return gen_c02(r, {'families': ['str', 'str', 'int'], 'n_pipes': (1, 2), 'max_params': 2, 'p_path': 0.8, 'zone_pathobj': True})
     return gen_c02(r, {'families': ['objset', 'objset', 'int', 'str'], 'n_pipes': (1, 2), 'max_params': 2})
 
